@@ -691,3 +691,36 @@ func init() {
 		return 1 << 20
 	}
 }
+
+// WaitProcessed waits (up to two simulated minutes) until every table of the
+// node has accounted for n more points than its statistics showed before
+// (inserted, filtered or dropped).
+func (e *Env) WaitProcessed(n *Node, before map[string]int64, count int64) {
+	for i := 0; i < 240; i++ {
+		done := true
+		for _, name := range n.DB.SimTableNames() {
+			if processedPoints(n, name)-before[name] < count {
+				done = false
+			}
+		}
+		if done {
+			return
+		}
+		e.Sleep(500 * time.Millisecond)
+	}
+	e.Count("probe.wait-processed-timeout")
+}
+
+func processedPoints(n *Node, table string) int64 {
+	st := n.DB.TableStats(table)
+	return st.InsertedPoints + st.FilteredPoints + st.DroppedPoints
+}
+
+// ProcessedSnapshot records the per-table counters for WaitProcessed.
+func (e *Env) ProcessedSnapshot(n *Node) map[string]int64 {
+	out := map[string]int64{}
+	for _, name := range n.DB.SimTableNames() {
+		out[name] = processedPoints(n, name)
+	}
+	return out
+}
